@@ -508,3 +508,27 @@ func TestDefflavorDefaultHandlerFunc(t *testing.T) {
   (:default-handler anything))
 `, string(pp.Append([]byte{'\n'}, scope, f)))
 }
+
+func TestDefflavorDefaultHandlerSecondComponent(t *testing.T) {
+	undefFlavors("plainpart", "handypart", "handyuser")
+	defer undefFlavors("plainpart", "handypart", "handyuser")
+	scope := slip.NewScope()
+	// The default handler is inherited from the first component that has
+	// one, a component without a handler in front of it does not hide it.
+	result := slip.ReadString(`
+(defflavor plainpart () ())
+(defflavor handypart () () (:default-handler (lambda (&rest args) (list 'handled args))))
+(defflavor handyuser () (plainpart handypart))
+(send (make-instance 'handyuser) :unknown 1)
+`, scope).Eval(scope, nil)
+	tt.Equal(t, "(handled (:unknown 1))", slip.ObjectString(result))
+
+	// An included flavor hands its default handler on like a component.
+	undefFlavors("handyincluder")
+	defer undefFlavors("handyincluder")
+	result = slip.ReadString(`
+(defflavor handyincluder () (plainpart) (:included-flavors handypart))
+(send (make-instance 'handyincluder) :unknown 2)
+`, scope).Eval(scope, nil)
+	tt.Equal(t, "(handled (:unknown 2))", slip.ObjectString(result))
+}
